@@ -14,25 +14,29 @@ pub enum CommentLocation {
 	EndOfItems,
 }
 
+/// The printer wants newlines and tabs as signals, not as a part of a string
+fn push_text(out: &mut PrintItems, mut text: &str) {
+	while !text.is_empty() {
+		let pos = text.find(['\n', '\t']).unwrap_or(text.len());
+		let sliced = &text[..pos];
+		p!(out, string(sliced.to_string()));
+		text = &text[pos..];
+		if !text.is_empty() {
+			match text.as_bytes()[0] {
+				b'\n' => p!(out, nl),
+				b'\t' => p!(out, tab),
+				_ => unreachable!(),
+			}
+			text = &text[1..];
+		}
+	}
+}
+
 #[allow(clippy::too_many_lines, clippy::cognitive_complexity)]
 pub fn format_comments(comments: &ChildTrivia, loc: CommentLocation, out: &mut PrintItems) {
 	for c in comments {
 		let Ok(c) = c else {
-			let mut text = c.as_ref().unwrap_err() as &str;
-			while !text.is_empty() {
-				let pos = text.find(['\n', '\t']).unwrap_or(text.len());
-				let sliced = &text[..pos];
-				p!(out, string(sliced.to_string()));
-				text = &text[pos..];
-				if !text.is_empty() {
-					match text.as_bytes()[0] {
-						b'\n' => p!(out, nl),
-						b'\t' => p!(out, tab),
-						_ => unreachable!(),
-					}
-					text = &text[1..];
-				}
-			}
+			push_text(out, c.as_ref().unwrap_err());
 			continue;
 		};
 		match c.kind() {
@@ -72,7 +76,9 @@ pub fn format_comments(comments: &ChildTrivia, loc: CommentLocation, out: &mut P
 					if matches!(loc, CommentLocation::ItemInline) {
 						p!(out, str(" "));
 					}
-					p!(out, str("/* ") string(lines[0].trim().to_string()) str(" */"));
+					p!(out, str("/* "));
+					push_text(out, lines[0].trim());
+					p!(out, str(" */"));
 					if matches!(
 						loc,
 						CommentLocation::AboveItem | CommentLocation::EndOfItems
@@ -136,7 +142,8 @@ pub fn format_comments(comments: &ChildTrivia, loc: CommentLocation, out: &mut P
 								}
 								line = new_line.to_string();
 							}
-							p!(out, string(line.clone()) nl);
+							push_text(out, &line);
+							p!(out, nl);
 						}
 					}
 					if doc {
@@ -165,7 +172,14 @@ pub fn format_comments(comments: &ChildTrivia, loc: CommentLocation, out: &mut P
 				if matches!(loc, CommentLocation::ItemInline) {
 					p!(out, str(" "));
 				}
-				p!(out, str("# ") string(c.text().strip_prefix('#').expect("hash comment starts with #").trim().to_string()));
+				p!(out, str("# "));
+				push_text(
+					out,
+					c.text()
+						.strip_prefix('#')
+						.expect("hash comment starts with #")
+						.trim(),
+				);
 				if !matches!(loc, CommentLocation::ItemInline) {
 					p!(out, nl);
 				}
@@ -174,14 +188,21 @@ pub fn format_comments(comments: &ChildTrivia, loc: CommentLocation, out: &mut P
 				if matches!(loc, CommentLocation::ItemInline) {
 					p!(out, str(" "));
 				}
-				p!(out, str("// ") string(c.text().strip_prefix("//").expect("comment starts with //").trim().to_string()));
+				p!(out, str("// "));
+				push_text(
+					out,
+					c.text()
+						.strip_prefix("//")
+						.expect("comment starts with //")
+						.trim(),
+				);
 				if !matches!(loc, CommentLocation::ItemInline) {
 					p!(out, nl);
 				}
 			}
 			// Garbage in - garbage out
 			TriviaKind::ErrorCommentTooShort => p!(out, str("/*/")),
-			TriviaKind::ErrorCommentUnterminated => p!(out, string(c.text().to_string())),
+			TriviaKind::ErrorCommentUnterminated => push_text(out, c.text()),
 		}
 	}
 }
